@@ -22,7 +22,8 @@ RULE = ('programs = LUAGEN model trees of the dialect (all statement kinds, PICO
         'break inside and one right after; only leading header comments survive; picotool\'s token count is '
         'unchanged. Non-trivial = >= 6 tokens and (a symbol/number adjacency or a line-scoped construct); distinct by '
         '(source, config).'
-        ' Part "names": programs of 26-200 distinct identifiers from C02\'s population generator (underscore names, would-be generated names, glyph names) under the same oracle, incl. \'no two identifiers written as one\'. Every library minification is run twice on the same Lua object; if the second output differs it is the one judged.')
+        ' Part "names": programs of 26-200 distinct identifiers from C02\'s population generator (underscore names, would-be generated names, glyph names) under the same oracle, incl. \'no two identifiers written as one\'. Every library minification is run twice on the same Lua object; if the second output differs it is the one judged.'
+        " A number directly followed by a '.'-token in the OUTPUT that was not glued in the input counts as a fusion (Lua/PICO-8 take the dots into the numeral).")
 ASSUMPTIONS = ['lexical rules are represented by vlib/reflex.py (no Lua/PICO-8 binary in the sandbox)',
                'renaming injectivity and reserved names are C02\'s clauses; here only "one function"',
                'number spelling is compared by value']
